@@ -111,6 +111,9 @@ Proof. destruct b as [|y t]; intros H; [reflexivity|]. cbn [count_le]. replace (
 Lemma count_lt_all k (a:list line) : Forall (fun y => (fst y < k)%N) a -> count_lt k a = length a.
 Proof. intros F. rewrite <- (app_nil_r a) at 1. rewrite count_lt_app by exact F. cbn [count_lt]. lia. Qed.
 
+Lemma count_le_all' k (a:list line) : Forall (fun y => (fst y <= k)%N) a -> count_le k a = length a.
+Proof. intros F. rewrite <- (app_nil_r a) at 1. rewrite count_le_app by exact F. cbn [count_le]. lia. Qed.
+
 (* for sorted lines: the lines in [s, e] are those between the two counts *)
 Lemma filter_lt_sorted k : forall (l:list line), StronglySorted N.lt (map fst l) ->
   filter (fun x => (fst x <? k)%N) l = firstn (count_lt k l) l.
